@@ -18,6 +18,14 @@ TOKEN_URI = "https://as.example/token"
 AUTH_URI = "https://as.example/authorize"
 
 
+def num(s):
+    """'at12' -> 12; None -> None"""
+    if s is None:
+        return None
+    digits = "".join(ch for ch in s if ch.isdigit())
+    return int(digits) if digits else -1
+
+
 class Clock:
     def __init__(self):
         self.t = 1_700_000_000
@@ -27,7 +35,8 @@ class Clock:
 
 
 class World:
-    def __init__(self):
+    def __init__(self, model=None):
+        self.model = model
         self.clock = Clock()
         self.real_time = time.time
         time.time = self.clock
@@ -40,10 +49,16 @@ class World:
             "c2": S.Client("c2", "s2", ["https://c2.example/cb"], "a", ["authorization_code", "refresh_token"],
                            ["code"], "client_secret_basic"),
         }
+        st.clients["pub"] = S.Client("pub", "", ["https://pub.example/cb"], "a b", ["implicit"], ["token"], "none")
         users = {"alice": "pw"}
         srv = self.srv = S.Server(st)
         gs = S.make_grants(st, users)
-        srv.register_grant(gs["code"])
+
+        class CodeGrant(gs["code"]):
+            def generate_authorization_code(self):
+                return st.fresh("code")
+
+        srv.register_grant(CodeGrant)
         srv.register_grant(gs["implicit"])
         srv.register_grant(gs["password"])
         srv.register_grant(gs["client_credentials"])
@@ -69,20 +84,53 @@ class World:
                 token.refresh_token_revoked_at = now
 
         srv.register_endpoint(Revocation)
+        self._o1 = None
+
+    # ------------------------------------------------------------------ OAuth 1 provider (lazy: needs Flask + RSA keys)
+    @property
+    def o1(self):
+        if self._o1 is None:
+            from props import c12
+            import authlib.integrations.flask_oauth1.authorization_server as FAS
+            st = self.store
+
+            def namegen(kind):
+                st.counter += 1
+                k = st.counter
+                if kind == "token":
+                    return {"oauth_token": "t%d" % k, "oauth_token_secret": "s%d" % k}
+                return "v%d" % k
+
+            self._c12 = c12
+            self._FAS = FAS
+            self._real_gen = FAS.generate_token
+            self._o1 = c12.Provider(["HMAC-SHA1"], self.clock, op=lambda name: st.op(name), namegen=namegen)
+            FAS.generate_token = self._o1.verifier_gen
+        return self._o1
 
     def close(self):
         time.time = self.real_time
+        if self._o1 is not None:
+            self._FAS.generate_token = self._real_gen
 
     # ------------------------------------------------------------------
     def snapshot(self):
         st = self.store
-        return {
-            "codes": sorted([c.code, c.client_id, c.user_id] for c in st.codes.values()),
-            "tokens": [[t.access_token, t.refresh_token, t.client_id, t.user_id, bool(t.refresh_token_revoked_at or t.access_token_revoked_at)]
-                       for t in st.tokens],
-            "devices": sorted([d["device_code"], d["client_id"]] for d in st.devices.values()),
+        snap = {
+            "codes": sorted([num(c.code), c.client_id, c.user_id] for c in st.codes.values()),
+            "tokens": [[num(t.access_token), num(t.refresh_token), t.client_id, t.user_id,
+                        bool(t.refresh_token_revoked_at or t.access_token_revoked_at)] for t in st.tokens],
+            "devices": sorted([num(d["device_code"]), num(d["user_code"]), d["client_id"]] for d in st.devices.values()),
+            "temps": [], "tok1": [], "nonces": [],
             "counter": st.counter,
         }
+        if self._o1 is not None:
+            d = self._o1.cache.d
+            snap["temps"] = sorted([num(v[0]["oauth_token"]), v[0]["client_id"], num(v[0].get("oauth_verifier")), v[0].get("user_id")]
+                                   for k, v in d.items() if k.startswith("temporary_credential:"))
+            snap["nonces"] = sorted(k[len("nonce:"):] for k in d if k.startswith("nonce:"))
+            snap["tok1"] = sorted([num(t.oauth_token), t.client_id, t.user_id] for t in self._o1.tokens)
+        return snap
 
     def _call(self, fn, fault_at):
         st = self.store
@@ -92,7 +140,7 @@ class World:
         try:
             out = fn()
         except S.StorageError:
-            out = ["raised", st.calls, st.trace[-1][0]]
+            out = ["raised", st.calls - 1, st.trace[-1][0]]
         except OAuth2Error as e:            # authorization endpoint errors surface as exceptions to the view
             out = ["error", e.error]
         finally:
@@ -113,14 +161,15 @@ class World:
     def _token_out(self, resp):
         status, body, _ = resp
         if status == 200 and isinstance(body, dict) and "access_token" in body:
-            return ["ok", "token", body["access_token"], body.get("refresh_token")]
+            return ["ok", "token", num(body["access_token"]), num(body.get("refresh_token"))]
         return ["error", body.get("error") if isinstance(body, dict) else str(body)]
 
     # ------------------------------------------------------------------ OAuth 2 flows
     def do_authorize(self, req):
         """authorization endpoint; response_type code | token"""
         q = {"response_type": req.get("response_type", "code"), "client_id": req.get("client", "c1"), "state": "xyz"}
-        if req.get("bad_redirect"):
+        q["redirect_uri"] = "https://%s.example/cb" % req.get("client", "c1")
+        if req.get("flag"):
             q["redirect_uri"] = "https://evil.example/cb"
         if req.get("scope"):
             q["scope"] = req["scope"]
@@ -133,9 +182,9 @@ class World:
         parts = up.urlsplit(loc)
         params = dict(up.parse_qsl(parts.query)) or dict(up.parse_qsl(parts.fragment))
         if "code" in params:
-            return ["ok", "code", params["code"]]
+            return ["ok", "code", num(params["code"])]
         if "access_token" in params:
-            return ["ok", "token", params["access_token"], None]
+            return ["ok", "token", num(params["access_token"]), None]
         return ["error", params.get("error", "?")]
 
     def _token(self, form, req):
@@ -143,19 +192,21 @@ class World:
         return self._token_out(self.srv.create_token_response(r))
 
     def do_redeem(self, req):
-        form = {"grant_type": "authorization_code", "code": req["code"]}
-        if req.get("wrong_redirect"):
+        form = {"grant_type": "authorization_code", "code": "code%d" % req["ref"],
+                "redirect_uri": "https://%s.example/cb" % req.get("client", "c1")}
+        if req.get("flag"):
             form["redirect_uri"] = "https://other.example/cb"
         return self._token(form, req)
 
     def do_refresh(self, req):
-        form = {"grant_type": "refresh_token", "refresh_token": req["refresh_token"]}
-        if req.get("scope"):
-            form["scope"] = req["scope"]
+        form = {"grant_type": "refresh_token", "refresh_token": "rt%d" % req["ref"]}
+        if req.get("flag"):
+            form["scope"] = "zzz"
         return self._token(form, req)
 
     def do_password(self, req):
-        return self._token({"grant_type": "password", "username": req.get("username", "alice"), "password": req.get("password", "pw")}, req)
+        return self._token({"grant_type": "password", "username": req.get("user") or "alice",
+                            "password": "bad" if req.get("flag") else "pw"}, req)
 
     def do_client_credentials(self, req):
         return self._token({"grant_type": "client_credentials"}, req)
@@ -164,24 +215,85 @@ class World:
         r = S.HReq("POST", "https://as.example/device", {"client_id": req.get("client", "c1"), "scope": "a"}, self._creds(req))
         status, body, _ = self.srv.create_endpoint_response("device_authorization", r)
         if status == 200 and "device_code" in body:
-            return ["ok", "device", body["device_code"], body["user_code"]]
+            return ["ok", "device", num(body["device_code"]), num(body["user_code"])]
         return ["error", body.get("error")]
 
     def do_decide(self, req):
-        self.store.user_grants[req["user_code"]] = (S.User(req["user"]), bool(req["approve"]))
+        self.store.user_grants["UC%d" % req["ref"]] = (S.User(req.get("user") or ""), bool(req["approve"]))
         return ["ok", "none"]
 
     def do_poll(self, req):
-        return self._token({"grant_type": "urn:ietf:params:oauth:grant-type:device_code", "device_code": req["device_code"],
+        return self._token({"grant_type": "urn:ietf:params:oauth:grant-type:device_code", "device_code": "dc%d" % req["ref"],
                             "client_id": req.get("client", "c1")}, req)
 
     def do_revoke(self, req):
-        r = S.HReq("POST", "https://as.example/revoke", {"token": req["token"]}, self._creds(req))
+        kind, n = req["tref"]
+        tok = {"access": "at%d" % n, "refresh": "rt%d" % n}.get(kind, "unknown-token")
+        r = S.HReq("POST", "https://as.example/revoke", {"token": tok}, self._creds(req))
         status, body, _ = self.srv.create_endpoint_response("revocation", r)
         if status == 200:
-            return ["ok", "revoked"]
+            return ["ok", "none"]
         return ["error", body.get("error")]
 
-    def do_tick(self, req):
-        self.clock.t += req["dt"]
-        return ["ok", "none"]
+    def do_implicit(self, req):
+        req = dict(req)
+        req["response_type"] = "token"
+        return self.do_authorize(req)
+
+    # ------------------------------------------------------------------ OAuth 1 flows
+    def nonce_key(self, req):
+        """the key under which the bundled nonce hook records this request (what the model is given)"""
+        key = "%s-%d-%s" % (req["nonce_raw"], self.clock.t, req.get("client", "c1"))
+        if req["kind"] == "o1_exchange":
+            key += "-t%d" % req["ref"]
+        if req["kind"] == "o1_access":
+            key += "-t%d" % req["ref"]
+        return key
+
+    def _o1_send(self, kind, spec, user=None):
+        c12 = self.o1 and self._c12
+
+        class Ctx:                      # build_req needs ctx.model only to compute base strings
+            model = self.model
+        op = {"op": kind, "req": c12.build_req(Ctx, kind, spec)}
+        if user:
+            op["user"] = user
+        return c12.out_of(op, c12.send(self.o1, op))
+
+    def _o1_spec(self, req, token=None, token_secret=""):
+        c12 = self.o1 and self._c12
+        client = req.get("client", "c1")
+        spec = {"client": client, "sig_method": "HMAC-SHA1", "ts": str(self.clock.t), "nonce": req["nonce_raw"],
+                "placement": "header", "http": "POST", "sig": "right"}
+        if token is not None:
+            spec["token"] = token
+        spec["sign_client_secret"] = "wrong" if req.get("sig_bad") else c12.SECRETS.get(client, "x")
+        spec["sign_token_secret"] = token_secret
+        return spec
+
+    def do_o1_initiate(self, req):
+        spec = self._o1_spec(req)
+        spec["callback"] = "https://client.example/cb"
+        out = self._o1_send("initiate", spec)
+        return ["ok", "temp", num(out[1])] if out[0] == "temp" else out[:1] + out[2:]
+
+    def do_o1_authorize(self, req):
+        spec = {"token": "t%d" % req["ref"], "placement": "query", "http": "POST", "sig": "absent"}
+        out = self._o1_send("authorize", spec, req.get("user"))
+        if out[0] == "redirect":
+            q = dict(up.parse_qsl(up.urlsplit(out[1]).query))
+            if "oauth_verifier" in q:
+                return ["ok", "verifier", num(q["oauth_token"]), num(q["oauth_verifier"])]
+            return ["error", q.get("error")]
+        return out[:1] + out[2:]
+
+    def do_o1_exchange(self, req):
+        spec = self._o1_spec(req, "t%d" % req["ref"], "s%d" % req["ref"])
+        spec["verifier"] = "wrong" if req.get("flag") else "v%d" % req.get("verifier", 0)
+        out = self._o1_send("exchange", spec)
+        return ["ok", "token1", num(out[1])] if out[0] == "token" else out[:1] + out[2:]
+
+    def do_o1_access(self, req):
+        spec = self._o1_spec(req, "t%d" % req["ref"], "s%d" % req["ref"])
+        out = self._o1_send("access", spec)
+        return ["ok", "served", num(out[1])] if out[0] == "served" else out[:1] + out[2:]
